@@ -151,6 +151,9 @@ def check_input(torch, c, stats):
                         out.append((dict(case, P=pi), f"raised {type(e).__name__} on the rotated input"))
                         continue
                     stats["calls"] = stats.get("calls", 0) + 1
+                    if not np.all(np.isfinite(Y)):
+                        out.append((dict(case, P=pi), "result on the rotated input is not finite"))
+                        continue
                     d = np.linalg.norm(Y - P @ Xn @ P.T, 2) / nX
                     bound = CC * n * u * max(kappa, 1.0) / 1.0
                     stats["max_equiv_over_nukappa"] = max(stats.get("max_equiv_over_nukappa", 0.0), d / (n * u * max(kappa, 1.0)))
